@@ -2,6 +2,7 @@ import Tumfl.Theory.FormatTextG
 import Tumfl.Theory.ReadSimTCG
 import Tumfl.Theory.EmitI
 import Tumfl.Props.Format
+import Tumfl.Inst.Styles
 /-!
 # C01 / C02 / C08  `format(parse(src))` denotes the same program - for every documented style
 
@@ -24,7 +25,7 @@ K2/K3 (numeral kinds of `5.` / `0x.8` are lost between source numeral and model 
 nesting beyond Python's recursion limit, and the tie between the models and the Python code, which is T2 (differential, not a proof).
 -/
 namespace Tumfl.Props
-open Tumfl.Model Tumfl.Theory
+open Tumfl.Model Tumfl.Theory Tumfl.Inst
 
 /-- the general form, on the emitter before fix 32 -/
 theorem C01_same_program_emit (src out : List Char) (b : Block) (hs : List Hint) (sty : Style)
@@ -53,6 +54,20 @@ theorem C02_same_program_final (src out : List Char) (b : Block) (hs : List Hint
     (hf : formatI sty b = .ok out) :
     ∃ c c', Spec.Accepts src c ∧ Spec.Accepts out c' ∧ normS c = normS c' :=
   C01_same_program src out b hs sty hcr hp hd (Or.inl hc) hf
+
+/-- **C01 as stated**: the default style (`FormattingStyle`, read from formatter.py on every run: `defaultStyle_repr_ok`) -/
+theorem C01_default_style (src out : List Char) (b : Block) (hs : List Hint)
+    (hcr : NoCR src) (hp : parseText src = .ok (b, hs))
+    (hcm : ∀ c ∈ commentsBlock b, ∀ t, commentPiece defaultStyle c = .str t → Tidy t)
+    (hf : formatI defaultStyle b = .ok out) :
+    ∃ c c', Spec.Accepts src c ∧ Spec.Accepts out c' ∧ normS c = normS c' :=
+  C01_same_program src out b hs defaultStyle hcr hp defaultStyle_doc (Or.inr hcm) hf
+
+/-- **C02 as stated**: the minified style (`MinifiedStyle`: `minifiedStyle_repr_ok`); no hypothesis besides "no CR in the source" -/
+theorem C02_minified_style (src out : List Char) (b : Block) (hs : List Hint)
+    (hcr : NoCR src) (hp : parseText src = .ok (b, hs)) (hf : formatI minifiedStyle b = .ok out) :
+    ∃ c c', Spec.Accepts src c ∧ Spec.Accepts out c' ∧ normS c = normS c' :=
+  C02_same_program_final src out b hs minifiedStyle hcr hp minifiedStyle_doc rfl hf
 
 /-- the repaired emitter coincides with the old one on what `parse` returns -/
 theorem EmitI_eq_emit_parsed (src : List Char) (b : Block) (hs : List Hint) (sty : Style) (hp : parseText src = .ok (b, hs)) :
